@@ -501,7 +501,8 @@ def check_sequential(run, res, label, witness_extra):
 # start value sets (absolute next-counter values; shift k = value - base)
 # --------------------------------------------------------------------------------------------------
 USER_K = [0, 1, 8, 9, 10, 90, 99, 100, 990]  # the k set of the design (shifts)
-DENSE = sorted(set(range(0, 13)) | set(range(88, 102)) | set(range(988, 1002)))  # singles, absolute
+DENSE = sorted(set(range(0, 13)) | set(range(88, 102)) | set(range(988, 1002)))  # singles (thorough), absolute
+SINGLE_QUICK = [1, 8, 9, 10, 11, 90, 98, 99, 100, 990, 999, 1000]  # singles (quick), absolute
 PAIR_QUICK = [9, 10, 99]  # absolute starts
 PAIR_FULL = [1, 5, 8, 9, 10, 11, 90, 95, 98, 99, 100, 990, 998, 999, 1000]  # absolute starts
 TRIPLE = [9, 99]  # absolute starts (with 0 = base: full product {base, 9, 99}^7 in thorough)
@@ -514,6 +515,13 @@ def ks_for(counter, absolute, extra_shifts=()):
     return sorted(ks)
 
 
+def _progress(run, msg):
+    if os.environ.get("VERIF_C12_PROGRESS"):
+        import time
+
+        print(f"[C12 +{time.time() - run.t0:7.1f}s] {msg} (violations so far: {len(run.violations)})", file=sys.stderr)
+
+
 def main(argv):
     run = Run(PID, argv)
     names = [f.__name__ for f in CAT.CATALOGUE]
@@ -521,14 +529,16 @@ def main(argv):
         return replay(run)
     quick = not run.thorough()
     compute_reference(names)
+    _progress(run, "reference done")
     run.transitions += len(names)
     for n in names:
         run.outcomes.add(f"{n}:{REF[n]['sig'][:16]}")
 
     # ---- single-counter states: complete over the dense start set and the design's k set ---------
     singles = []
+    single_set = SINGLE_QUICK if quick else DENSE
     for c in COUNTERS:
-        for k in ks_for(c, DENSE, USER_K):
+        for k in ks_for(c, single_set, USER_K):
             singles.append(((c, k),))
     items = [((), names, True)] + [(s, names, True) for s in singles]
     for d in pmap(work_states, items, seed=run.seed):
@@ -537,6 +547,7 @@ def main(argv):
             if len(st) == 1:
                 SINGLE_BAD.add((st[0][0], st[0][1], n))
 
+    _progress(run, f"{len(singles)} single-counter states done")
     # ---- multi-counter states ----------------------------------------------------------------------
     multi = set()
     pair_set = PAIR_QUICK if quick else PAIR_FULL
@@ -560,6 +571,7 @@ def main(argv):
     for d in pmap(work_states, [(s, names, False) for s in multi], seed=run.seed):
         run.merge(d)
 
+    _progress(run, f"{len(multi)} multi-counter states done")
     # ---- sweep: every start value in a contiguous range, confirmed by real forked histories -----
     hi = 130 if quick else 1100
     sweep_items = []
@@ -591,6 +603,7 @@ def main(argv):
     if confirmed != n_todo:
         raise RuntimeError(f"{n_todo - confirmed} sweep mismatches were not reproduced by real forked histories")
 
+    _progress(run, f"sweep done, {len(cand)} mismatches, {n_todo} confirmed by extra forked histories")
     # ---- sequential history (whole catalogue in one process) ------------------------------------
     check_sequential(run, forked(sequential, names), "sequential", {})
 
@@ -605,6 +618,7 @@ def main(argv):
     if len(set(run.extra["hash_probes"].values())) < 3:
         raise RuntimeError("hash seeds did not take effect in the fresh interpreters")
 
+    _progress(run, "fresh interpreters done")
     use = {n: {c: u for c, u in REF[n]["usage"].items() if u} for n in names}
     run.rule = (
         "cases = (counter-offset state, catalogue form); each state is reached by really creating throw-away "
@@ -619,7 +633,7 @@ def main(argv):
         "catalogue_forms": len(names),
         "counters": COUNTERS,
         "base_counter_values_after_import": BASE,
-        "single_counter_absolute_starts": DENSE,
+        "single_counter_absolute_starts": single_set,
         "single_counter_extra_shifts_k": USER_K,
         "single_counter_states": len(singles),
         "pair_absolute_starts": pair_set,
